@@ -67,9 +67,6 @@ SetCfgs == { [BaseCfg EXCEPT !.subs = s, !.comp = cm, !.jar = j, !.tmo = t] :
                s \in { << >>, << "chat", "superchat" >> }, cm \in BOOLEAN, j \in BOOLEAN, t \in {"none", "ht"} }
 
 CoreCfgs == { BaseCfg, [BaseCfg EXCEPT !.subs = << "chat", "superchat" >>, !.comp = TRUE, !.tmo = "ht"] }
-MCCfgs == (IF "hdr" \in Parts THEN SetCfgs ELSE CoreCfgs)
-          \cup (IF "body" \in Parts THEN BodyCfgs ELSE {})
-          \cup (IF "urlp" \in Parts THEN ProxyCfgs ELSE {})
 
 D1(u, h, r) == Dial(u, h, r, OkCReply, "valid", NoFault, FALSE)
 
@@ -105,6 +102,10 @@ WssURL == [PlainURL EXCEPT !.scheme = "wss"]
 
 HistReplies == { GoodReply, [GoodReply EXCEPT !.acc = "stale"], [GoodReply EXCEPT !.acc = "swap"],
                  StdReply(403, << >>, << >>, "absent", 10, TRUE, "none") }
+
+MCCfgs == (IF "hdr" \in Parts THEN SetCfgs ELSE CoreCfgs)
+          \cup (IF "body" \in Parts THEN BodyCfgs ELSE {})
+          \cup (IF "urlp" \in Parts THEN ProxyCfgs ELSE {})
 
 MCDials(c) ==
   (IF "body" \in Parts /\ c \in BodyCfgs THEN BodyDials ELSE {})
